@@ -24,6 +24,7 @@ type opCtx struct {
 	henv    *hEnv // set by traversals, for the caller to inspect
 	noBuf   bool
 	quiet   bool
+	structH bool
 }
 
 // targets are the Decode destinations; they live for a whole run.
@@ -107,6 +108,7 @@ func (x *opCtx) trav(kind string, data []byte) Outcome {
 	e.noBuf = x.noBuf || x.buf == nil
 	e.doc2 = x.doc2
 	e.quiet = x.quiet
+	e.structH = x.structH
 	x.henv = e
 	return e.traverse(kind, data)
 }
@@ -163,6 +165,16 @@ var apiOps = []apiOp{
 	{name: "DecodeUint32", zeroAlloc: true, run: func(x *opCtx, d []byte) Outcome { p, err := rjson.DecodeUint32(d, &x.tg.u32); return pev(x.tg.u32, p, err) }},
 	{name: "DecodeUint", zeroAlloc: true, run: func(x *opCtx, d []byte) Outcome { p, err := rjson.DecodeUint(d, &x.tg.u); return pev(x.tg.u, p, err) }},
 	{name: "DecodeString", run: func(x *opCtx, d []byte) Outcome { p, err := rjson.DecodeString(d, &x.tg.s, x.scratch); return pev(x.tg.s, p, err) }},
+	{name: "NestedDescent", takesBuf: true, handler: true, run: func(x *opCtx, d []byte) Outcome {
+		// a handler that recurses through the public traversal functions, one Go call level per
+		// nesting level of the document (user-level recursion: bounded here, it is not the library's)
+		if bracketDepth(d) > 4000 {
+			return pe(rjson.SkipValue(d, x.b()))
+		}
+		h := &descentHandler{}
+		p, err := h.descend(d)
+		return pev(fmt.Sprintf("descent:members=%d,maxdepth=%d", h.members, h.max), p, err)
+	}},
 	{name: "StdLibCompatibleTree", usesPool: true, run: func(x *opCtx, d []byte) Outcome {
 		v, p, err := rjson.ReadValue(d)
 		switch t := v.(type) {
@@ -173,6 +185,37 @@ var apiOps = []apiOp{
 		}
 		return pev(v, p, err)
 	}},
+}
+
+type descentHandler struct{ depth, max, members int }
+
+func (h *descentHandler) descend(d []byte) (int, error) {
+	tt, _, err := rjson.NextTokenType(d)
+	if err != nil {
+		return 0, err
+	}
+	h.depth++
+	if h.depth > h.max {
+		h.max = h.depth
+	}
+	defer func() { h.depth-- }()
+	switch tt {
+	case rjson.ArrayStartType:
+		return rjson.HandleArrayValues(d, h, nil)
+	case rjson.ObjectStartType:
+		return rjson.HandleObjectValues(d, h, nil)
+	}
+	return rjson.SkipValue(d, nil)
+}
+
+func (h *descentHandler) HandleArrayValue(d []byte) (int, error) {
+	h.members++
+	return h.descend(d)
+}
+
+func (h *descentHandler) HandleObjectValue(_, d []byte) (int, error) {
+	h.members++
+	return h.descend(d)
 }
 
 var apiIndex = func() map[string]*apiOp {
